@@ -84,8 +84,9 @@ def run_case(case, stats: Counter):
     flav = case.get("flav", "list")
     steps = spec.get("steps")
     ops = spec.get("ops")
-    sync = run_sync_side(spec, steps=steps, log=False, ops=ops)
-    asy = run_async_side(spec, flavours=[flav] * len(spec["srcs"]), steps=steps, log=False, ops=ops,
+    keep = bool(spec.get("raw")) and tool != "tee"
+    sync = run_sync_side(spec, steps=steps, log=False, ops=ops, keep_objs=keep)
+    asy = run_async_side(spec, flavours=[flav] * len(spec["srcs"]), steps=steps, log=False, ops=ops, keep_objs=keep,
                          outer_flavour=flav if flav in ("list", "async_gen", "async_class", "sync_iter") else "list")
     exp_out, exp_term = expected(spec, sync)
     stats[f"runs_{tool}"] += 1
@@ -110,6 +111,15 @@ def run_case(case, stats: Counter):
                       "msg": f"{tool} {spec['params']} srcs={spec['srcs']} flav={flav}: first difference at output {d}; "
                              f"stdlib ends {exp_term}, asyncstdlib ends {asy.term}",
                       "detail": {"expected": exp_out, "got": asy.out, "exp_term": exp_term, "got_term": asy.term}})
+    if keep and not viols and (sync.final_out, sync.alias, sync.items_changed) != (asy.final_out, asy.alias, asy.items_changed):
+        stats["object_identity_patterns_compared"] += 1
+        viols.append({"key": f"{tool}/yielded-objects-aliased-or-mutated",
+                      "msg": f"{tool} {spec['params']} fns={spec.get('fns')} srcs={spec['srcs']} flav={flav}: after the run the "
+                             f"yielded objects read {asy.final_out} (identity pattern {asy.alias}, inputs modified: "
+                             f"{asy.items_changed}); stdlib: {sync.final_out} (pattern {sync.alias}, inputs modified: "
+                             f"{sync.items_changed})"})
+    elif keep:
+        stats["object_identity_patterns_compared"] += 1
     nontrivial = any(lens) and (tie or len(set(lens)) > 1 or bool(spec["params"]))
     return {"violations": viols, "nontrivial": nontrivial, "sig": (spec, flav)}
 
